@@ -2,7 +2,7 @@
 from pyvc.contract import contract, define, fields, axiom
 
 T = "sqlglot/tokenizer_core.py"
-fields(sql="str", size="int", _current="int", _line="int", _col="int", _char="str", _peek="str", _end="bool", _start="int", tokens="list",
+fields(sql="str", size="int", _current="int", _line="int", _col="int", _char="str", _peek="str", _end="bool", _start="int", tokens="list[Token]",
        _comments="list", _prev_token_line="int")
 
 axiom("empty-string-is-not-alnum", "lambda: not ''.isalnum()")
@@ -75,4 +75,29 @@ contract(
     opaque={"self._scan": dict(havoc=["*"], raises=["Exception"], returns="none",
                                ensures=["self.sql == old(self.sql)", "self.size == old(self.size)"],
                                ensures_exc=["self.sql == old(self.sql)", "self.size == old(self.size)", "self._current >= 0"])},
+)
+
+fields(token_type="TokenType", text="str", line="int", col="int", start="int", end="int", comments="list")
+define("last_token", "lambda s: s.tokens[len(s.tokens) - 1]")
+
+contract(
+    T, "TokenizerCore._add", props=["C13"],
+    types={"token_type": "TokenType", "text": "str|none"},
+    requires=["self.size == len(self.sql)", "0 <= self._start", "self._start <= self._current", "self._current <= self.size",
+              # separation: comment buffers are not the token list itself
+              "self._comments is not self.tokens", "forall(range(0, len(self.tokens)), lambda i: self.tokens[i].comments is not self.tokens)"],
+    # verified slice: everything up to the command-rest handling; the stamped token describes the scanned span
+    stop_at="if token_type in self.commands",
+    ensures=[
+        "len(self.tokens) == old(len(self.tokens)) + 1",
+        "isinstance(last_token(self), Token)",
+        "last_token(self).start == self._start", "last_token(self).end == self._current - 1",
+        "last_token(self).line == self._line", "last_token(self).col == self._col",
+        "last_token(self).token_type is token_type",
+        "implies(old(text) is None, last_token(self).text == substr(self.sql, self._start, self._current))",
+        "implies(old(text) is not None, last_token(self).text == old(text))",
+        "self._prev_token_line == self._line",
+    ],
+    modifies=None,
+    inline=["Token"],
 )
